@@ -166,8 +166,10 @@ func (it *indexedMessageIterator) parseSummarySection() error {
 			}
 			// if the chunk overlaps with the requested parameters, load it
 			if (it.end == 0 && it.start == 0) || ((idx.MessageStartTime < it.end || it.noEnd) && idx.MessageEndTime >= it.start) {
-				// Can't infer absence of a topic if there are no message indexes.
-				if len(idx.MessageIndexOffsets) == 0 {
+				// Can't infer absence of a topic if there are no message indexes, and there is
+				// nothing to infer when no topic restriction was requested (as for Info, which
+				// must list every chunk index even if the summary repeats no channel records).
+				if len(idx.MessageIndexOffsets) == 0 || len(it.topics) == 0 {
 					it.chunkIndexes = append(it.chunkIndexes, idx)
 					continue
 				}
